@@ -1046,7 +1046,9 @@ func encodeIdent(name string) string {
 // https://developer.mozilla.org/en-US/docs/Glossary/Identifier.
 func formatJSStructTagVal(jsTag string) string {
 	for i, r := range jsTag {
-		ok := unicode.IsLetter(r) || (i != 0 && unicode.IsNumber(r)) || r == '$' || r == '_'
+		// Of the numbers only decimal digits may continue an identifier and letter
+		// numbers (Ⅷ) may be anywhere in it; other numbers (², ½) are not part of one.
+		ok := unicode.IsLetter(r) || unicode.Is(unicode.Nl, r) || (i != 0 && unicode.IsDigit(r)) || r == '$' || r == '_'
 		if !ok {
 			// Saw an invalid JavaScript identifier character,
 			// so use bracket notation.
